@@ -80,11 +80,17 @@ type Case struct {
 	Consumers  int             `json:"consumers"`
 	DelayUs    int             `json:"delay_us"`
 	DelayMod   int             `json:"delay_mod"`
-	ErrAt      int             `json:"err_at"`      // -1: none; else the k-th callback invocation fails
-	ReadDirErr string          `json:"readdir_err"` // "-": none; else listing this (cleaned) directory fails
-	Gomaxprocs int             `json:"gomaxprocs"`
-	GraceUs    int             `json:"grace_us"`
-	Plan       Plan            `json:"plan"`
+	ErrAt      int             `json:"err_at"` // -1: none; else the k-th callback invocation fails
+	// Err2: the callback invocation after the ErrAt-th fails too, a little later, after it has
+	// read loop.Errors() itself (somebody polling the error list while the loop is being torn
+	// down); both errors must be in the final list.
+	Err2 bool `json:"err2,omitempty"`
+	// Poll: every callback reads loop.Errors() when it begins (a monitor polling the list).
+	Poll       bool   `json:"poll,omitempty"`
+	ReadDirErr string `json:"readdir_err"` // "-": none; else listing this (cleaned) directory fails
+	Gomaxprocs int    `json:"gomaxprocs"`
+	GraceUs    int    `json:"grace_us"`
+	Plan       Plan   `json:"plan"`
 }
 
 func cleanLoopPath(p string) string {
@@ -177,8 +183,10 @@ func Gen(rt *rapid.T) Case {
 		c.DelayUs = 1 + hx.Uniform(rt, 300, "delayus")
 		c.DelayMod = 1 + hx.Uniform(rt, 4, "delaymod")
 	}
-	if hx.Chance(rt, 12, "cberr") {
+	c.Poll = hx.Chance(rt, 30, "poll")
+	if hx.Chance(rt, 14, "cberr") {
 		c.ErrAt = hx.Uniform(rt, 6, "errat")
+		c.Err2 = hx.Chance(rt, 45, "err2")
 	} else if hx.Chance(rt, 8, "rderr") {
 		c.ReadDirErr = ""
 		if len(dirs) > 0 && hx.Chance(rt, 70, "rdd") {
@@ -413,8 +421,16 @@ func run(c Case) hx.Verdict {
 		afterWait int32
 		lateCalls int32
 		cbErr     = &injected{"INJECTED-CALLBACK-ERROR"}
+		cbErr2    = &injected{"INJECTED-SECOND-CALLBACK-ERROR"}
 		cbErrHit  int32
+		cbErr2Hit int32
+		loopRef   atomic.Value // *fsloop.Loop once it exists
 	)
+	poll := func() {
+		if l, ok := loopRef.Load().(interface{ Errors() []error }); ok && l != nil {
+			_ = l.Errors()
+		}
+	}
 	cb := func(kind string) filesystem.LoopOn {
 		return func(_ filesystem.Filespace, p string) error {
 			if atomic.LoadInt32(&afterWait) == 1 {
@@ -428,6 +444,9 @@ func run(c Case) hx.Verdict {
 				}
 			}
 			k := atomic.AddInt32(&calls, 1) - 1
+			if c.Poll {
+				poll()
+			}
 			mu.Lock()
 			seen[event{kind, p}]++
 			if len(order) < 64 {
@@ -441,6 +460,15 @@ func run(c Case) hx.Verdict {
 			if c.ErrAt >= 0 && int(k) == c.ErrAt {
 				atomic.AddInt32(&cbErrHit, 1)
 				err = cbErr
+				if c.Err2 {
+					time.Sleep(120 * time.Microsecond) // give the next callback time to begin
+				}
+			}
+			if c.ErrAt >= 0 && c.Err2 && int(k) == c.ErrAt+1 {
+				time.Sleep(500 * time.Microsecond) // the first failure is recorded meanwhile
+				poll()
+				atomic.AddInt32(&cbErr2Hit, 1)
+				err = cbErr2
 			}
 			atomic.AddInt32(&inflight, -1)
 			return err
@@ -462,6 +490,7 @@ func run(c Case) hx.Verdict {
 	defer verifhook.Set(nil)
 
 	loop := fsloop.NewLoop(ld, nil)
+	loopRef.Store(loop)
 	done := make(chan struct{})
 	var errs []error
 	var inAtWait int32
@@ -519,7 +548,7 @@ func run(c Case) hx.Verdict {
 			return hx.Fail("unselected", "%s callback ran for %q which the filters do not select (or does not exist)", e.kind, e.path)
 		}
 	}
-	injectedErr := cbErrHit > 0 || src.rdErrHit > 0
+	injectedErr := cbErrHit > 0 || cbErr2Hit > 0 || src.rdErrHit > 0
 	hasTag := func(tag string) bool {
 		for _, e := range errs {
 			if e != nil && strings.Contains(e.Error(), tag) {
@@ -530,6 +559,15 @@ func run(c Case) hx.Verdict {
 	}
 	if cbErrHit > 0 && !hasTag("INJECTED-CALLBACK-ERROR") {
 		return hx.Fail("error-lost", "a callback returned an error but Errors() = %v", errs)
+	}
+	if cbErr2Hit > 0 && !hasTag("INJECTED-SECOND-CALLBACK-ERROR") {
+		return hx.Fail("error-lost", "two callbacks returned an error (the second one after the error list had been read while the loop was being stopped) but the second is not in Errors() = %v", errs)
+	}
+	if cbErr2Hit > 0 && cbErrHit > 0 {
+		v.Label("two-callback-errors-with-a-read-of-the-list-between")
+	}
+	if c.Poll {
+		v.Label("error-list-polled-during-the-walk")
 	}
 	if src.rdErrHit > 0 && !hasTag("INJECTED-READDIR-ERROR") {
 		return hx.Fail("error-lost", "a directory listing failed but Errors() = %v", errs)
